@@ -544,3 +544,45 @@ func (c *ctx) boundaryCases() (out []bcase, seq []bcase) {
 	}
 	return out, seq
 }
+
+// checkMsgLimits: a message holding limit−1 or exactly limit elements in a field with a documented
+// per-message limit (the repository's constants, wire.MsgLimits) round-trips through its own
+// Serialize/Deserialize.
+func (c *ctx) checkMsgLimits() {
+	r := c.r
+	for _, lim := range wire.MsgLimits() {
+		for _, n := range []int{lim.Limit - 1, lim.Limit} {
+			atomic.AddInt64(&c.evals, 1)
+			sp, ok := wire.SpecByName(lim.Spec)
+			if !ok {
+				continue
+			}
+			if sp.Setup != nil {
+				sp.Setup()
+			}
+			art := map[string]interface{}{"kind": "msglimit", "case": fmt.Sprintf("%s/%s=%d", lim.Spec, lim.Path, n)}
+			if err := wire.ApplyLimit(sp.Value, lim, n); err != nil {
+				continue
+			}
+			sig := lim.Spec + "|" + lim.Path
+			buf := new(bytes.Buffer)
+			if err := sp.Value.Serialize(buf); err != nil {
+				r.Violate("C04|msg-limit|encode-error|"+sig, fmt.Sprintf("%s with %d in %s (limit %s = %d) does not serialise: %v", lim.Spec, n, lim.Path, lim.Const, lim.Limit, err), art)
+				continue
+			}
+			m := sp.New()
+			tr := wire.NewTracker(buf.Bytes())
+			tr.NoTrace = true
+			if err := m.Deserialize(tr); err != nil {
+				r.Violate("C04|msg-limit|decode-error|"+sig, fmt.Sprintf("%s with %d in %s (limit %s = %d) serialises but does not deserialise: %v", lim.Spec, n, lim.Path, lim.Const, lim.Limit, err), art)
+				continue
+			}
+			if ok, d := wire.Equal(sp.Value, m); !ok || tr.Remaining() != 0 {
+				r.Violate("C04|msg-limit|roundtrip-diff|"+sig, fmt.Sprintf("%s with %d in %s comes back different (%s, %d bytes left)", lim.Spec, n, lim.Path, d, tr.Remaining()), art)
+				continue
+			}
+			atomic.AddInt64(&c.msgLimits, 1)
+			c.mark(fmt.Sprintf("msglimit|%s|%d", sig, n-lim.Limit))
+		}
+	}
+}
